@@ -109,31 +109,55 @@ def setCells (r : Row) (cells : List (Nat × Val)) (pk : List Nat) : Row :=
 inductive UndoRes | done | skipped | dirty | sqlError
   deriving Repr, DecidableEq
 
+inductive Verdict | goOn | skip | dirty
+  deriving Repr, DecidableEq
+
+/-- the rows currently stored under the keys of `rows`, projected on the columns those rows track -/
+def currentOf (sc : Schema) (t : Table) (rows : List IRow) : List IRow :=
+  let cols := (rows.head?.map (·.cells.map (·.1))).getD []
+  (t.filter fun r => (rows.map (·.key)).contains (keyOf sc r)).map (project sc cols)
+
+/-- executor.go dataValidationAndGoOn: three-way comparison of before image, after image and the
+    rows as they are now (`undoRows`: after image for INSERT/UPDATE, before image for DELETE) -/
+def validate (sc : Schema) (cfg : Cfg) (t : Table) (it : Item) (undoRows : List IRow) : Verdict :=
+  if !cfg.validate then .goOn
+  else if recordsEq it.before it.after then .skip
+  else
+    let current := currentOf sc t undoRows
+    if recordsEq it.after current then .goOn
+    else if recordsEq it.before current then .skip
+    else .dirty
+
 /-- the compensating action of one undo item on the current table -/
 def undoItem (sc : Schema) (cfg : Cfg) (t : Table) (it : Item) : Table × UndoRes :=
   match it.kind with
   | .update =>
-    let write : Table := t.map fun r =>
-      match it.before.find? (fun b => b.key == keyOf sc r) with
-      | some b => setCells r b.cells sc.pk
-      | none => r
-    if !cfg.validate then (if it.before.isEmpty then (t, .sqlError) else (write, .done))
-    else if recordsEq it.before it.after then (t, .skipped)
-    else
-      let cols := (it.after.head?.map (·.cells.map (·.1))).getD []
-      let current := (t.filter fun r => (it.after.map (·.key)).contains (keyOf sc r)).map (project sc cols)
-      if recordsEq it.after current then (write, .done)
-      else if recordsEq it.before current then (t, .skipped)
-      else (t, .dirty)
+    match validate sc cfg t it it.after with
+    | .skip => (t, .skipped)
+    | .dirty => (t, .dirty)
+    | .goOn =>
+      if it.before.isEmpty then (t, .sqlError)
+      else (t.map fun r =>
+        match it.before.find? (fun b => b.key == keyOf sc r) with
+        | some b => setCells r b.cells sc.pk
+        | none => r, .done)
   | .insert =>
-    if it.after.isEmpty then (t, .sqlError)
-    else (t.filter (fun r => !(it.after.map (·.key)).contains (keyOf sc r)), .done)
+    match validate sc cfg t it it.after with
+    | .skip => (t, .skipped)
+    | .dirty => (t, .dirty)
+    | .goOn =>
+      if it.after.isEmpty then (t, .sqlError)
+      else (t.filter (fun r => !(it.after.map (·.key)).contains (keyOf sc r)), .done)
   | .delete =>
-    if it.before.isEmpty then (t, .sqlError)
-    else
-      let rows : List Row := it.before.map fun b => (List.range sc.ncols).map fun c => ((b.cells.find? (·.1 == c)).map (·.2)).getD .null
-      if rows.any fun r => (lookup sc t (keyOf sc r)).isSome then (t, .sqlError)
-      else (t ++ rows, .done)
+    match validate sc cfg t it it.before with
+    | .skip => (t, .skipped)
+    | .dirty => (t, .dirty)
+    | .goOn =>
+      if it.before.isEmpty then (t, .sqlError)
+      else
+        let rows : List Row := it.before.map fun b => (List.range sc.ncols).map fun c => ((b.cells.find? (·.1 == c)).map (·.2)).getD .null
+        if rows.any fun r => (lookup sc t (keyOf sc r)).isSome then (t, .sqlError)
+        else (t ++ rows, .done)
 
 /-- Undo of a branch: its items in reverse order inside one local transaction; any failure rolls
     the transaction back (table unchanged) and the branch is NOT reported rollbacked -/
